@@ -64,12 +64,32 @@ template<int D> static void cloud(std::mt19937 & rng, int kind)
   if (kind == 0) for (int i = 0; i < n; ++i) if (!((rn[i] - R * normals[i]).norm() <= 1e-6)) { FAIL("%dD planar cloud rotated by %.3g rad about the origin: normal %d is not the rotated normal (difference %.3g)", D, th, i, (rn[i] - R * normals[i]).norm()); break; }
 }
 
+// a dense cloud far from the origin (georeferenced coordinates): exactly representable points on an axis-aligned plane / line at 5e6 with a
+// spacing of 2^-6; the neighbourhood spread is tiny compared with the range but its smallest eigenvalue is exactly zero and distinct
+template<int D> static void far_dense(int k)
+{
+  using V = Eigen::Matrix<double, D, 1>;
+  PointSet<V> pts; const double h = 1.0 / 64;
+  if (D == 3) { for (int i = 0; i < 25; ++i) for (int j = 0; j < 25; ++j) { V p; p[0] = 3e6 + i * h; p[1] = -2e6 + j * h; p[D - 1] = 5e6; pts.push_back(p); } }
+  else { for (int i = 0; i < 200; ++i) { V p; p[0] = 3e6 + i * h; p[D - 1] = 5e6; pts.push_back(p); } }
+  size_t n = pts.size();
+  NormalSet<V> normals(n); std::vector<double> curv(n);
+  NormalAndCurvatureEstimation<V> est(k);
+  est.compute(pts, normals, curv);
+  V want = V::Zero(); want[D - 1] = -1;
+  for (size_t i = 0; i < n; ++i) {
+    if (!((normals[i] - want).norm() <= 1e-6)) { FAIL("%dD dense cloud far from the origin (plane/line at 5e6, spacing 2^-6, k=%d), point %zu: normal differs from the surface normal by %.3g", D, k, i, (normals[i] - want).norm()); break; }
+    if (!(std::fabs(curv[i]) <= 1e-9)) { FAIL("%dD dense cloud far from the origin, k=%d, point %zu: curvature %.3g is not zero", D, k, i, curv[i]); break; }
+  }
+}
+
 int main(int argc, char ** argv)
 {
   std::map<std::string, std::string> A;
   for (int i = 1; i < argc; ++i) { std::string a(argv[i]); auto p = a.find('='); if (p != std::string::npos) A[a.substr(0, p)] = a.substr(p + 1); }
   std::mt19937 rng(A.count("seed") ? (unsigned)atol(A["seed"].c_str()) : 0);
   for (int k = 0; k < 30; ++k) { cloud<3>(rng, k % 3); cloud<2>(rng, k % 3); }
+  far_dense<3>(12); far_dense<2>(6);
   if (fails) { printf("%d failing checks\n", fails); return 1; }
   printf("no failing input found: normals are unit, sensor-facing, least-variance directions; planar clouds exact with zero curvature; curvature in range; rotation equivariant\n");
   return 0;
